@@ -563,7 +563,10 @@ def check_accumulating_loops(model: RepoModel, rep, RID: str):
                 while id(cur) in enc and enc[id(cur)] is not nearest:
                     cur = enc[id(cur)]
                     if isinstance(cur, ast.If):
-                        guards.append(" ".join(ast.unparse(cur.test).split()))
+                        t_ = cur.test
+                        while isinstance(t_, ast.UnaryOp) and isinstance(t_.op, ast.Not):      # polarity-free: `if c: .. else: break` == `if not c: break`
+                            t_ = t_.operand
+                        guards.append(" ".join(ast.unparse(t_).split()))
                 gtxt = guards[0] if guards else "<unconditional>"
                 key = f"{rel}::{cname}.{f.name}::{'break' if isinstance(n, ast.Break) else 'return'} under `{gtxt}`"
                 guards_full = []
